@@ -162,7 +162,7 @@ loop:
 	default:
 		LOG.Printf("completing positionals and subcommands for arg %#v\n", context.Value)
 		batch := Batch(storage.getPositional(cmd, len(context.Args)))
-		if cmd.HasAvailableSubCommands() && len(context.Args) == 0 {
+		if (cmd.HasAvailableSubCommands() || (env.Hidden() && cmd.HasSubCommands())) && len(context.Args) == 0 {
 			batch = append(batch, ActionCommands(cmd))
 		}
 		return batch.ToA(), context
